@@ -40,8 +40,101 @@ type critSection struct {
 	name    ssa.Value
 }
 
+// lockWrapper: an in-repository function that does nothing with its function parameter
+// but run it under locks.Run(ctx, lockName(b, n), ·) — `g.withObjectLock(ctx, bucket, name, fn)`.
+type lockWrapper struct {
+	fnParam        int       // index (in Params) of the function parameter that is run under the lock
+	bucketP, nameP int       // indexes of the parameters lockName is built from, or -1
+	bucketC, nameC ssa.Value // … or the constants used instead
+}
+
+var lockWrapperCache = map[*core.Program]map[*ssa.Function]*lockWrapper{}
+
+func lockWrappers(p *core.Program) map[*ssa.Function]*lockWrapper {
+	if m, ok := lockWrapperCache[p]; ok {
+		return m
+	}
+	m := map[*ssa.Function]*lockWrapper{}
+	lockWrapperCache[p] = m
+	if p.SPkgs[core.PkgGcsemu] == nil {
+		return m
+	}
+	paramIdx := func(fn *ssa.Function, v ssa.Value) int {
+		v = core.Resolve(v)
+		for i, pa := range fn.Params {
+			if v == ssa.Value(pa) {
+				return i
+			}
+		}
+		return -1
+	}
+	for _, fn := range p.SrcFuncs(core.PkgGcsemu) {
+		if fn.Parent() != nil {
+			continue
+		}
+		for _, ci := range core.AllCalls(fn) {
+			if !ci.MethodOn(core.PkgGcsutil, "TransientLockMap", "Run") {
+				continue
+			}
+			if _, isCall := ci.Instr.(*ssa.Call); !isCall {
+				continue
+			}
+			args := ci.Args()
+			if len(args) != 3 {
+				continue
+			}
+			fi := paramIdx(fn, args[2])
+			if fi < 0 {
+				continue
+			}
+			key, ok := core.Resolve(args[1]).(*ssa.Call)
+			if !ok || !core.FuncIs(key.Call.StaticCallee(), core.PkgGcsemu, "lockName") {
+				continue
+			}
+			w := &lockWrapper{fnParam: fi, bucketP: paramIdx(fn, key.Call.Args[0]), nameP: paramIdx(fn, key.Call.Args[1])}
+			if w.bucketP < 0 {
+				if _, isK := core.Resolve(key.Call.Args[0]).(*ssa.Const); !isK {
+					continue
+				}
+				w.bucketC = core.Resolve(key.Call.Args[0])
+			}
+			if w.nameP < 0 {
+				if _, isK := core.Resolve(key.Call.Args[1]).(*ssa.Const); !isK {
+					continue
+				}
+				w.nameC = core.Resolve(key.Call.Args[1])
+			}
+			// the function parameter is used for nothing else
+			only := true
+			for _, r := range core.Referrers(fn.Params[fi]) {
+				switch x := r.(type) {
+				case *ssa.DebugRef:
+				case ssa.CallInstruction:
+					if x != ci.Instr {
+						only = false
+					}
+				default:
+					only = false
+				}
+			}
+			if only {
+				m[fn] = w
+			}
+		}
+	}
+	return m
+}
+
+// isLockRunCall: a call of TransientLockMap.Run or of a lock wrapper.
+func isLockRunCall(p *core.Program, ci *core.CallInfo) bool {
+	if ci.MethodOn(core.PkgGcsutil, "TransientLockMap", "Run") {
+		return true
+	}
+	return ci.Static != nil && lockWrappers(p)[ci.Static] != nil
+}
+
 // sectionOfClosure: fn is the closure passed as `f` to (*TransientLockMap).Run
-// whose key is lockName(b, n).
+// whose key is lockName(b, n) — directly, or through a lock wrapper.
 func sectionOfClosure(p *core.Program, fn *ssa.Function) (*critSection, string) {
 	par := fn.Parent()
 	if par == nil {
@@ -49,6 +142,23 @@ func sectionOfClosure(p *core.Program, fn *ssa.Function) (*critSection, string) 
 	}
 	for _, f := range core.Family(core.Root(par)) {
 		for _, ci := range core.AllCalls(f) {
+			if w := lockWrappers(p)[ci.Static]; ci.Static != nil && w != nil {
+				if w.fnParam >= len(ci.Common.Args) || closureOf(ci.Common.Args[w.fnParam]) != fn {
+					continue
+				}
+				call, ok := ci.Instr.(*ssa.Call)
+				if !ok {
+					return nil, "the lock wrapper is not called directly (go/defer)"
+				}
+				sec := &critSection{closure: fn, runCall: call, bucket: w.bucketC, name: w.nameC}
+				if w.bucketP >= 0 {
+					sec.bucket = ci.Common.Args[w.bucketP]
+				}
+				if w.nameP >= 0 {
+					sec.name = ci.Common.Args[w.nameP]
+				}
+				return sec, ""
+			}
 			if !ci.MethodOn(core.PkgGcsutil, "TransientLockMap", "Run") {
 				continue
 			}
